@@ -165,6 +165,8 @@ fn run_rust(root: &Root, handle: Option<&Handle>, procfs: Option<&ProcfsHandle>,
 }
 
 struct Args {
+    newns: bool,
+    proc_opts: Option<String>,
     warm_fault: Option<(usize, i32, bool)>,
     deny: Vec<i64>,
     uid: Option<u32>,
@@ -175,6 +177,8 @@ struct Args {
 
 fn parse_args() -> Args {
     let mut a = Args {
+        newns: false,
+        proc_opts: None,
         warm_fault: None,
         deny: vec![],
         uid: None,
@@ -199,6 +203,8 @@ fn parse_args() -> Args {
                 }
             }
             "--uid" => a.uid = Some(it.next().unwrap().parse().unwrap()),
+            "--newns" => a.newns = true,
+            "--proc-opts" => a.proc_opts = Some(it.next().unwrap()),
             "--warm-fault" => {
                 let v = it.next().unwrap();
                 let parts: Vec<&str> = v.split(':').collect();
@@ -333,6 +339,23 @@ fn outcome_json(o: &Outcome) -> Value {
 }
 
 fn run_job(args: &Args, job: &Value, seq: usize) -> Value {
+    let mut out = run_job_inner(args, job, seq);
+    // over-mounts never outlive their job, whichever way the job ended
+    if out.get("_umounted").is_none() {
+        if let Some(ms) = job.get("postumount").and_then(|m| m.as_array()) {
+            let sb = args.work.join("unused");
+            for m in ms {
+                let _ = tree::apply_fsop(&sb, m);
+            }
+        }
+    }
+    if let Some(o) = out.as_object_mut() {
+        o.remove("_umounted");
+    }
+    out
+}
+
+fn run_job_inner(args: &Args, job: &Value, seq: usize) -> Value {
     let t0 = std::time::Instant::now();
     let sb = args.work.join(format!("sb{}_{}", std::process::id(), seq));
     let _ = std::fs::remove_dir_all(&sb);
@@ -532,6 +555,16 @@ fn run_job(args: &Args, job: &Value, seq: usize) -> Value {
             out["history_log"] = json!(log);
         }
     }
+    // over-mounts that must already be in place when the procfs handle is constructed
+    let mut early_mount_log = vec![];
+    if let Some(ms) = job.get("premount_early").and_then(|m| m.as_array()) {
+        for m in ms {
+            early_mount_log.push(json!([m, tree::apply_fsop(&sb, m)]));
+        }
+    }
+    if !early_mount_log.is_empty() {
+        out["early_mount_log"] = json!(early_mount_log);
+    }
     let procfs: Option<Arc<ProcfsHandle>> = if k.starts_with("proc_") {
         // the handle is built inside a traced region so that its descriptor,
         // mount id and subset flag can be read off the trace (model parameter)
@@ -583,6 +616,13 @@ fn run_job(args: &Args, job: &Value, seq: usize) -> Value {
         None
     };
 
+    // over-mounts placed before the call (removed again afterwards)
+    let mut mount_log = vec![];
+    if let Some(ms) = job.get("premount").and_then(|m| m.as_array()) {
+        for m in ms {
+            mount_log.push(json!([m, tree::apply_fsop(&sb, m)]));
+        }
+    }
     let snapdir = match snap.as_str() {
         "root" => Some(rootpath.clone()),
         "all" => Some(sb.clone()),
@@ -641,6 +681,19 @@ fn run_job(args: &Args, job: &Value, seq: usize) -> Value {
         Ok(o) => {
             out["res"] = outcome_json(&o);
             if let Outcome::Fd(fd) = o {
+                if job.get("read").and_then(|b| b.as_bool()).unwrap_or(false) {
+                    let mut buf = vec![0u8; 512];
+                    let n = unsafe { libc::pread(fd, buf.as_mut_ptr() as *mut libc::c_void, buf.len(), 0) };
+                    if n >= 0 {
+                        out["content"] = json!(hex(&buf[..n as usize]));
+                    } else {
+                        out["content_errno"] = json!(std::io::Error::last_os_error().raw_os_error().unwrap_or(0));
+                    }
+                    let names = tree::dir_names(fd);
+                    if let Some(ns) = names {
+                        out["dir_entries"] = json!(ns);
+                    }
+                }
                 unsafe { libc::close(fd) };
             }
         }
@@ -693,6 +746,15 @@ fn run_job(args: &Args, job: &Value, seq: usize) -> Value {
     if let Some(pr) = job.get("post_raw") {
         out["post_raw"] = raw_openat2(&rootpath, pr);
     }
+    if let Some(ms) = job.get("postumount").and_then(|m| m.as_array()) {
+        for m in ms {
+            mount_log.push(json!([m, tree::apply_fsop(&sb, m)]));
+        }
+    }
+    if !mount_log.is_empty() {
+        out["mount_log"] = json!(mount_log);
+    }
+    out["_umounted"] = json!(true);
     drop(root);
     drop(handle);
     drop(procfs);
@@ -826,10 +888,36 @@ fn unreachable_root() -> &'static Root {
 }
 
 fn main() {
-    let args = parse_args();
+    let mut args = parse_args();
     std::fs::create_dir_all(&args.work).unwrap();
     let _ = std::fs::set_permissions(&args.work, std::fs::Permissions::from_mode(0o755));
+    // job and result files are opened before privileges are dropped
+    let f = std::fs::File::open(&args.job).expect("open job file");
+    let mut outf = std::io::BufWriter::new(std::fs::File::create(&args.out).expect("create out file"));
+    if args.newns {
+        // private mount namespace: over-mounts made by the jobs stay in this process
+        unsafe {
+            if libc::unshare(libc::CLONE_NEWNS) != 0
+                || libc::mount(std::ptr::null(), b"/\0".as_ptr() as *const libc::c_char, std::ptr::null(), libc::MS_REC | libc::MS_PRIVATE, std::ptr::null()) != 0
+            {
+                panic!("cannot create a private mount namespace");
+            }
+            if let Some(opts) = &args.proc_opts {
+                // a fresh procfs instance with the given options replaces /proc in this namespace
+                let o = std::ffi::CString::new(opts.as_str()).unwrap();
+                if libc::mount(b"proc\0".as_ptr() as *const libc::c_char, b"/proc\0".as_ptr() as *const libc::c_char,
+                               b"proc\0".as_ptr() as *const libc::c_char, 0, o.as_ptr() as *const libc::c_void) != 0 {
+                    panic!("cannot mount procfs with options {opts}");
+                }
+            }
+        }
+    }
     if let Some(uid) = args.uid {
+        // an unprivileged caller gets a work directory of its own
+        let w = args.work.join(format!("u{uid}"));
+        std::fs::create_dir_all(&w).unwrap();
+        let _ = std::os::unix::fs::chown(&w, Some(uid), Some(uid));
+        args.work = w;
         unsafe {
             libc::setgroups(0, std::ptr::null());
             if libc::setgid(uid) != 0 || libc::setuid(uid) != 0 {
@@ -839,8 +927,6 @@ fn main() {
     }
     // quiet panics: they are reported in the result
     std::panic::set_hook(Box::new(|_| {}));
-    let f = std::fs::File::open(&args.job).expect("open job file");
-    let mut outf = std::io::BufWriter::new(std::fs::File::create(&args.out).expect("create out file"));
     // Warm-up under the supervisor with this process' deny policy: the
     // library's lazily initialised globals (openat2 support, default backend,
     // global procfs handle, rename-flags probe, sysctl cache) are set here,
